@@ -65,6 +65,11 @@ CHECKS.update({
              text="Bounded symbolic checking of invariance: label comparison injective for all short str/int labels; same index and probability under bijective relabelling (dash / mixed labels, other listing order) and under scaling of all distances and parameters; kernels commute with axis swap, symbolic scaling and translation. The scale-dependence of the absolute 1e-8 tolerances is a listed known finding.",
              note="Reals (translation/scaling exact); matcher-level scaling with concrete factors 4, 1/4, 2^20; graphs <=4 nodes, T<=3."),
 })
+CHECKS.update({
+ 'C18': dict(tech="symbolic execution of the real SqliteMap build/from_file code over a parsing SQL shim with symbolic cells (shim validated against real sqlite3 each run; counterexamples replayed on real sqlite3); InMemMap pickle round-trip through the real pickle", ref="5/C18",
+             text="Bounded symbolic checking: for each build script in the list (single/bulk inserts, deferred commit/index, re-index, ignore-doubles) with symbolic coordinates and query, every answer after 1-2 reopen cycles equals the answer before closing, for both metric flags.",
+             note="SQL shim models only the statements the code issues (parsed at run time) and the float32 R-tree rounding as an interval; 3 nodes; pyproj/rtree absent."),
+})
 NA = {
  'C15': "error bound between two transcendental computations (great-circle vs locally projected planar): needs a delta-complete procedure for sin/cos/atan2; z3 has none and cvc5 QF_NRAT timed out on the 3-variable core (DESIGN.md section 8)",
 }
